@@ -588,6 +588,57 @@ def storeAll (st : St) : List T → Except Err (St × List (Id × J))
           let (st2, log2) ← storeAll st1 ts
           pure (st2, log1 ++ log2)
 
+/-- `del storage[i]`: removed from the backend (`KeyError` when it is not there), then from the temporary storage -/
+def delitem (st : St) (i : Id) : Except Err St :=
+  if hasKey i st.backend then
+    pure { backend := st.backend.filter (fun e => e.1 ≠ i), temp := st.temp.filter (fun e => e.1 ≠ i) }
+  else throw .keyError
+
+/-! ### several live `PulseStorage` objects over one backend
+
+The backend is the single source of truth; every storage has its own temporary storage, which may be stale. -/
+
+structure Multi where
+  backend : Store := []
+  temps : List (List (Id × T)) := []
+
+inductive Op where
+  | set (k : Nat) (t : T)      -- `storages[k][t.identifier] = t`
+  | over (k : Nat) (t : T)     -- `storages[k].overwrite(t.identifier, t)`
+  | del (k : Nat) (i : Id)     -- `del storages[k][i]`
+
+def Multi.view (m : Multi) (k : Nat) : St := { backend := m.backend, temp := m.temps.getD k [] }
+
+def Multi.update (m : Multi) (k : Nat) (st : St) : Multi :=
+  { backend := st.backend
+    temps := (m.temps ++ List.replicate (k + 1 - m.temps.length) []).set k st.temp }
+
+/-- one operation; an operation that raises leaves everything as it was -/
+def Multi.step (m : Multi) : Op → Multi × Bool
+  | .set k t =>
+      match t.id with
+      | none => (m, false)
+      | some i => match setitem (m.view k) i t with
+          | .ok (st, _) => (m.update k st, true)
+          | .error _ => (m, false)
+  | .over k t =>
+      match t.id with
+      | none => (m, false)
+      | some i => match overwrite (m.view k) i t with
+          | .ok (st, _) => (m.update k st, true)
+          | .error _ => (m, false)
+  | .del k i =>
+      match delitem (m.view k) i with
+      | .ok st => (m.update k st, true)
+      | .error _ => (m, false)
+
+def Multi.run (m : Multi) : List Op → Multi × List Bool
+  | [] => (m, [])
+  | op :: ops =>
+      let (m1, ok) := m.step op
+      let (m2, oks) := Multi.run m1 ops
+      (m2, ok :: oks)
+
 /-- `store ∅ t` -/
 def store (t : T) : Except Err (St × List (Id × J)) := storeAll {} [t]
 
@@ -826,6 +877,7 @@ def uniqueIdsB (ts : List T) : Bool :=
 
 ```
 (c10 store (<tree> …))     → (ok (writes i…) (docs (i <json>)…) (refs (i (r…))…)) | (error <class>)
+(c10 multi ((set k <tree>) | (over k <tree>) | (del k i) …)) → (ok (outcomes b…) (docs …) (refs …))
 (c10 load <fuel> ((i <json>)…) i)   → (ok <tree> (built i…)) | (error <class>)
 (c10 wf <tree>)             → (wf true|false) (unique true|false)
 tree  ::= (n <cls> <id|-> (<item>…))      item ::= (d k <json>) | (c k <tree>) | (cs k <tree>…)
@@ -947,6 +999,20 @@ def handle : List Sexp → Sexp
                .list (.atom "writes" :: log.map (fun e => Sexp.atom e.1)),
                .list (.atom "docs" :: st.backend.map fun (i, d) => .list [.atom i, sexpOfJ d]),
                .list (.atom "refs" :: st.backend.map fun (i, d) => .list [.atom i, .list (d.refs.map Sexp.atom)])]
+  | [.atom "multi", .list ops] =>
+    let parseOp : Sexp → Option Op := fun
+      | .list [.atom "set", k, t] => do pure (.set (← nat? k) (← tOfSexp t))
+      | .list [.atom "over", k, t] => do pure (.over (← nat? k) (← tOfSexp t))
+      | .list [.atom "del", k, .atom i] => do pure (.del (← nat? k) i)
+      | _ => none
+    match ops.mapM parseOp with
+    | none => Sexp.err "bad-ops"
+    | some ops =>
+      let (m, oks) := Multi.run {} ops
+      .list [.atom "ok",
+             .list (.atom "outcomes" :: oks.map ofBool),
+             .list (.atom "docs" :: m.backend.map fun (i, d) => .list [.atom i, sexpOfJ d]),
+             .list (.atom "refs" :: m.backend.map fun (i, d) => .list [.atom i, .list (d.refs.map Sexp.atom)])]
   | [.atom "load", fuel, .list docs, .atom i] =>
     match nat? fuel, storeOfSexp docs with
     | some f, some s =>
